@@ -167,17 +167,6 @@ Section Compose.
   Variable decode : list N -> dres.
   Variable ports_of : list N -> list N.
 
-  Definition entry_of (r : bres) : list mentry :=
-    match r with
-    | ROk b => [MVal b]
-    | RErrSize => [MErr 1]
-    | RErrDeser => [MErr 2]
-    | RErrMissing => [MErr 3]
-    | RErrPorts => [MErr 4]
-    | REnd => []
-    end.
-  Definition entries_of (l : list bres) : list mentry := flat_map entry_of l.
-
   Lemma entries_src_ok ls : src_ok (map entries_of ls).
   Proof.
     unfold src_ok. rewrite Forall_map. apply Forall_forall. intros l _. unfold entries_of.
